@@ -24,6 +24,10 @@ pub fn predicate(name: &str, case: &Case, v: &Violation) -> bool {
         "zero_filled_sector" => {
             case.corruptions.len() == 1 && case.corruptions[0].kind == "zero512"
         }
+        // The only corruption of the case replaces a file by a same-sized sibling.
+        "sibling_file_content" => {
+            case.corruptions.len() == 1 && case.corruptions[0].kind == "sibling"
+        }
         // The only fault of the case is an I/O error on the manifest's fsync or write.
         "io_error_on_manifest_sync_or_write" => {
             case.op_faults.is_empty()
